@@ -183,15 +183,17 @@ func (p *expoHistogramDataPoint[N]) scaleChange(bin, startBin int32, length int)
 		return 0
 	}
 
-	low := int(startBin)
-	high := int(bin)
+	// Use int64: bins are more than 2^31 apart at high scales, which
+	// overflows int on 32-bit platforms.
+	low := int64(startBin)
+	high := int64(bin)
 	if startBin >= bin {
-		low = int(bin)
-		high = int(startBin) + length - 1
+		low = int64(bin)
+		high = int64(startBin) + int64(length) - 1
 	}
 
 	var count int32
-	for high-low >= p.maxSize {
+	for high-low >= int64(p.maxSize) {
 		low = low >> 1
 		high = high >> 1
 		count++
